@@ -593,9 +593,21 @@ def b_bytes_join(ex, state, args, kwargs, sv):
     items = ex.iter_concrete(state, a)
     ts = []
     for k, it in enumerate(items):
-        if not isinstance(it, VBytes):
-            if isinstance(it, VUnion):
+        if isinstance(it, VUnion):
+            it = ex.narrow(state, it)
+        if isinstance(it, VUnion):
+            # an item that is bytes on every feasible alternative: the guarded choice of its alternatives; an
+            # alternative of another kind is the TypeError of the real join under that alternative's guard
+            t = None
+            for g, a in reversed(it.alts):
+                if isinstance(a, VBytes):
+                    t = a.t if t is None else z3.If(g, a.t, t)
+                else:
+                    ex.raise_if(state, g, "TypeError")
+            if t is None:
                 raise Unsupported("join of union items")
+            it = VBytes(t)
+        if not isinstance(it, VBytes):
             _type_error(ex, state)
         if k:
             ts.append(sv.t)
@@ -699,6 +711,49 @@ def _mk_str_fn(name):
 
 for _n in ("lower", "upper", "strip", "lstrip", "rstrip", "title", "format", "replace", "zfill", "capitalize"):
     BUILTINS["str." + _n] = _mk_str_fn(_n)
+
+
+def _str_format_exact(ex, state, args, kwargs, sv):
+    """"constant template".format(name=value, ...) with plain {name} fields and str / int / None values: the exact
+    string; everything else stays a function of its arguments"""
+    import re as _re
+    opaque = _mk_str_fn("format")
+    if not z3.is_string_value(sv.t) or args or not kwargs or "**" in kwargs:
+        return opaque(ex, state, args, kwargs, sv)
+    tmpl = sv.t.as_string()
+    pieces = _re.split(r"\{([A-Za-z_][A-Za-z_0-9]*)\}", tmpl)
+    if any("{" in p_ or "}" in p_ for p_ in pieces[0::2]) or any(n not in kwargs for n in pieces[1::2]):
+        return opaque(ex, state, args, kwargs, sv)
+
+    def text(v):
+        outs = []
+        for g, a in alts_of(v):
+            if isinstance(a, VStr):
+                outs.append((g, a.t))
+            elif isinstance(a, VNoneT):
+                outs.append((g, z3.StringVal("None")))
+            elif isinstance(a, VInt) and not isinstance(a, VBool):
+                outs.append((g, z3.If(a.t >= 0, z3.IntToStr(a.t), z3.Concat(z3.StringVal("-"), z3.IntToStr(-a.t)))))
+            else:
+                return None
+        t = outs[-1][1]
+        for g, x in reversed(outs[:-1]):
+            t = z3.If(g, x, t)
+        return t
+    parts = []
+    for i, p_ in enumerate(pieces):
+        if i % 2 == 0:
+            if p_:
+                parts.append(z3.StringVal(p_))
+        else:
+            t = text(kwargs[p_])
+            if t is None:
+                return opaque(ex, state, args, kwargs, sv)
+            parts.append(t)
+    return VStr(parts[0] if len(parts) == 1 else z3.Concat(*parts))
+
+
+BUILTINS["str.format"] = _str_format_exact
 
 
 def _mk_split(kind):
